@@ -75,6 +75,9 @@ def check_roundtrip(drv, rng, obj, X, stats, tag=""):
     # judge 1: same fitted mapping (canonical values_orders up to dict order) -- via behaviour below
     # judge 2: same transform output or same rejection, on the training frame and on probe frames
     frames = [("train", X)] + [(m, c05.probe_frame(rng, obj, X, m)) for m in rng.sample(["inside", "nan", "unseen", "mixed", "one", "empty"], 3)]
+    if any(str(t) == "float32" for t in X.dtypes):
+        # the same values at a wider precision (a float32 boundary compared with float64 cells)
+        frames.append(("train as float64", X.astype({c: "float64" for c in X.columns if str(X[c].dtype) == "float32"})))
     for name, Xp in frames:
         o1, e1, m1, _ = fitgen.run_transform(obj, Xp.copy())
         o2, e2, m2, _ = fitgen.run_transform(obj2, Xp.copy())
